@@ -95,9 +95,48 @@ func genScript(g *rand.Rand) []step {
 	return out
 }
 
+// genDeepScript builds one deep heap on table "a": n waiters whose revisions arrive in a random
+// order, a random subset is cancelled, a pause lets the periodic sweep remove them (every shape of
+// "expired waiter somewhere inside the heap"), then the applied index advances revision by
+// revision; the barrier check after every notification demands that exactly the live waiters at or
+// below it have been released.
+func genDeepScript(g *rand.Rand) []step {
+	n := 5 + g.Intn(9)
+	revs := g.Perm(n)
+	var out []step
+	for i := 0; i < n; i++ {
+		rev := uint64(revs[i] + 1)
+		if g.Intn(8) == 0 {
+			rev = uint64(g.Intn(n) + 1) // duplicate revision
+		}
+		out = append(out, step{op: "add", w: i, table: "a", rev: rev, kind: "cancel"})
+	}
+	k := 1 + g.Intn(n/2+1)
+	for _, w := range g.Perm(n)[:k] {
+		out = append(out, step{op: "cancel", w: w})
+	}
+	out = append(out, step{op: "sleep", ms: 1150 + g.Intn(200)})
+	if g.Intn(3) == 0 { // a second wave: more waiters and cancellations after the first sweep
+		for i := n; i < n+3; i++ {
+			out = append(out, step{op: "add", w: i, table: "a", rev: uint64(g.Intn(n) + 1), kind: "cancel"})
+		}
+		out = append(out, step{op: "cancel", w: n + g.Intn(3)})
+		out = append(out, step{op: "sleep", ms: 1150 + g.Intn(200)})
+	}
+	out = append(out, step{op: "len", table: "a"})
+	for rev := 1; rev <= n; rev++ {
+		out = append(out, step{op: "notify", table: "a", rev: uint64(rev)})
+	}
+	return out
+}
+
 func runScript(r *ev.Run, id caseID) {
 	g := rand.New(rand.NewSource(id.Seed))
 	script := genScript(g)
+	if id.Seed%3 == 0 {
+		script = genDeepScript(g)
+		r.Count("queue_scripts_deep_heap", 1)
+	}
 	w := witness{Case: id}
 	for _, s := range script {
 		w.Script = append(w.Script, s.String())
@@ -351,7 +390,8 @@ func runScript(r *ev.Run, id caseID) {
 	}
 	r.Count("queue_scripts", 1)
 	r.Eval(1)
-	if (liveAndCancelledTogether >= 1 && sweepsStraddled >= 2 && maxDepth >= 3) || hasRevZero {
+	deep := id.Seed%3 == 0
+	if (liveAndCancelledTogether >= 1 && sweepsStraddled >= 2 && maxDepth >= 3) || hasRevZero || (deep && liveAndCancelledTogether >= 1 && maxDepth >= 3) {
 		r.Nontrivial(fmt.Sprint(id.Seed))
 	}
 	r.Sample(map[string]any{"layer": 1, "script": w.Script, "waiters": len(ws)})
